@@ -117,6 +117,18 @@ def object_set(rng, bucket, fmt):
     return out
 
 
+def has_cycle(g):
+    """g: [[key, base index, depth], ...] as dumped by the harness"""
+    for i in range(len(g)):
+        seen, k = set(), i
+        while 0 <= k < len(g) and k not in seen:
+            seen.add(k)
+            k = g[k][1]
+        if k >= 0:
+            return True
+    return False
+
+
 def objs_json(objs):
     return [{"type": t, "data": D.seg(b)} for t, b in objs]
 
@@ -364,7 +376,7 @@ class Select(Suite):
                 fails[c["id"]] = "[%s] %s" % (cls, why)
             else:
                 g = (r.get("extra") or {}).get("graph") or []
-                self._depths.append((r["extra"].get("_maxdepth", 0), any(x[1] == -2 for x in g), "packhex" in c))
+                self._depths.append((r["extra"].get("_maxdepth", 0), any(x[1] == -2 for x in g), "packhex" in c, has_cycle(g)))
         return fails
 
     def finding_class(self, case, reason, reply):
@@ -376,7 +388,8 @@ class Select(Suite):
         new = [x[0] for x in d if not x[2]]
         return {"max_chain_depth_git_verify_pack": max([x[0] for x in d] or [0]),
                 "max_chain_depth_without_reuse": max(new or [0]),
-                "packs_accepted_by_git": len(d)}
+                "packs_accepted_by_git": len(d),
+                "selected_graphs_with_a_cycle": sum(1 for x in d if x[3])}
 
 
 SUITES = [Graph(), Select()]
